@@ -79,13 +79,26 @@ fn main() {
                 serde_json::json!({"kind": "panic", "location": loc, "message": msg}),
             );
             ctx.capped("the run was cut short by a panic in the subject");
+        } else if loc.contains("library/core/src/fmt") || loc.contains("library/core/src/str") || loc.contains("library/alloc/src/str") {
+            // the harness only ever formats its own (well-formed) values and values the subject returned: a panic
+            // inside core's string formatting means a returned packet or error holds text that is not UTF-8
+            let msg = String::from_utf8_lossy(msg.as_bytes()).into_owned();
+            ctx.violation(
+                format!("{id}:returned-value-with-ill-formed-text"),
+                format!("formatting a value returned by the subject panicked inside core's string code ({msg} @ {loc}): the value holds a String that is not UTF-8 (the run stopped there; coverage is partial)"),
+                serde_json::json!({"kind": "panic", "location": loc, "message": msg}),
+            );
+            ctx.capped("the run was cut short by an unprintable value returned by the subject");
         } else {
+            let msg = String::from_utf8_lossy(msg.as_bytes()).into_owned();
             ctx.info("machinery_error", serde_json::json!(format!("harness panic: {msg} @ {loc}")));
         }
     }
     let j = ctx.to_json(t0.elapsed().as_secs_f64());
     let machinery = ctx.info.lock().unwrap().get("machinery_error").cloned();
+    // whatever the subject handed back, the part file is valid UTF-8
     let text = serde_json::to_string_pretty(&j).unwrap();
+    let text = String::from_utf8_lossy(text.as_bytes()).into_owned();
     match out {
         Some(p) => std::fs::write(&p, text).expect("write part file"),
         None => println!("{text}"),
